@@ -81,7 +81,7 @@ type treeStats struct {
 }
 
 // check applies the oracle to one parsed tree.
-func check(tree ast.Stmt) (fails []failure, st treeStats) {
+func check(tree ast.Stmt, reparse func() ast.Stmt) (fails []failure, st treeStats) {
 	edges := astdump.Edges(tree)
 	st.edges = len(edges)
 	nodes := map[interface{}]bool{}
@@ -160,6 +160,39 @@ func check(tree ast.Stmt) (fails []failure, st treeStats) {
 			add("stop/nondeterministic", fmt.Sprintf("second walk made %d calls, first made %d", len(c2), len(calls)))
 		case err2 != sentinel:
 			add("stop/wrong-error/"+k, fmt.Sprintf("callback failed at call %d (%s); Walk returned %v instead of the callback's error", i, k, err2))
+		}
+	}
+	// (5) a walk has no memory: after a walk that was aborted (first thing done to a
+	// freshly parsed tree) and after a complete walk, another walk of the SAME tree
+	// presents what the first complete walk of a fresh tree presented
+	kinds := func(cs []interface{}) string {
+		var ks []string
+		for _, c := range cs {
+			ks = append(ks, astdump.Kind(c))
+		}
+		return strings.Join(ks, " ")
+	}
+	want := kinds(calls)
+	if pan == "" && err == nil && reparse != nil {
+		c3, err3, pan3 := walk(tree, 0, nil)
+		st.walks++
+		if pan3 == "" && err3 == nil && kinds(c3) != want {
+			add("rewalk/after-complete-walk", fmt.Sprintf("a second complete walk of the same tree presents %d nodes, the first presented %d", len(c3), len(calls)))
+		}
+		for _, i := range []int{1, (len(calls) + 1) / 2, len(calls)} {
+			if i < 1 || i > len(calls) {
+				continue
+			}
+			t2 := reparse()
+			if t2 == nil {
+				break
+			}
+			walk(t2, i, errors.New("sentinel"))
+			c4, err4, pan4 := walk(t2, 0, nil)
+			st.walks += 2
+			if pan4 != "" || err4 != nil || kinds(c4) != want {
+				add("rewalk/after-aborted-walk", fmt.Sprintf("a fresh tree whose first walk was aborted at call %d: the next complete walk presents %d nodes (err=%v panic=%q), a fresh tree's first walk presents %d", i, len(c4), err4, pan4, len(calls)))
+			}
 		}
 	}
 	return
@@ -255,7 +288,7 @@ func run(c *common.Ctx) *common.Result {
 			res.Add("empty_tree_skipped", 1)
 			return
 		}
-		fails, st := check(tree)
+		fails, st := check(tree, func() ast.Stmt { t, _, _ := parse(src); return t })
 		res.Add("evaluations", 1)
 		h := sha1.Sum([]byte(astdump.DumpNoPos(tree)))
 		res.Distinct("trees", string(h[:12]))
@@ -357,7 +390,7 @@ func replay(c *common.Ctx, path string) int {
 		if pan != "" || perr != nil || tree == nil {
 			lines = append(lines, fmt.Sprintf("program no longer parses to a tree (err=%v panic=%q)", perr, pan))
 		} else {
-			fails, _ := check(tree)
+			fails, _ := check(tree, func() ast.Stmt { t, _, _ := parse(src); return t })
 			for _, f := range fails {
 				lines = append(lines, f.Class+": "+f.Detail)
 			}
